@@ -81,7 +81,8 @@ pub fn install_panic_hook() {
 /// file (without line) + first words of the message: stable across unrelated edits
 pub fn panic_sig(p: &PanicRec) -> String {
     let file = p.loc.rsplit_once(':').map(|x| x.0).unwrap_or(&p.loc);
-    let file = file.rsplit('/').next().unwrap_or(file);
+    let parts: Vec<&str> = file.rsplit('/').take(2).collect();
+    let file = if parts.len() == 2 && parts[0] == "mod.rs" { format!("{}/{}", parts[1], parts[0]) } else { parts[0].to_string() };
     let m: String = p.msg.chars().filter(|c| !c.is_ascii_digit()).take(40).collect();
     format!("panic:{}:{}", file, m.trim())
 }
